@@ -1502,7 +1502,7 @@ func tableCheck11(r *Run) {
 func runC11(r *Run, rng *Rng, tier string) error {
 	nLess, nModel, nOracleSimple, nOracleRich, maxPerms := 1500, 300, 15, 45, 16
 	if tier == "thorough" {
-		nLess, nModel, nOracleSimple, nOracleRich, maxPerms = 16000, 4000, 150, 500, 0
+		nLess, nModel, nOracleSimple, nOracleRich, maxPerms = 15000, 3000, 120, 350, 0
 	}
 	r.Meta.Rule = "less: id pairs over adversarial group/version/kind/namespace/name pools (place holders ~G ~V ~K ~X ~N, separators _ |, bytes >= 0x7f, empty fields, " +
 		"ranked/unranked kinds, Namespace kind), 60% near-equal pairs, 20% custom order lists; build: trees of 1-3 layers (nested and sibling bases), 0-4 entries per resources list, " +
@@ -1545,7 +1545,7 @@ func runC11(r *Run, rng *Rng, tier string) error {
 	// dedicated families (every permutation of every resources list, also in the quick tier)
 	nFam := 8
 	if tier == "thorough" {
-		nFam = 150
+		nFam = 60
 	}
 	stFam := &oracleStats{}
 	for i := 0; i < nFam; i++ {
